@@ -49,6 +49,7 @@ def shards(tier):
                 for st in "+-":
                     for ex in EXPLICIT:
                         out.append((si, e0, ci, st, ex))
+    out.append(("scale", 0, 0, "+", "none"))
     return out
 
 
@@ -69,7 +70,36 @@ def reorder(lines, how):
     raise ValueError(how)
 
 
+def body_scale(ch, ctx):
+    """400 genes x 3 transcripts x 2 exons (1200 transcripts), every derived extent checked."""
+    dis_g, dis_t = ch.choose("flags", ((False, False), (True, False), (False, True)))
+    texts = []
+    for g in range(400):
+        for t in range(3):
+            for e in range(2):
+                st = 1 + 1000 * g + 100 * t + 30 * e
+                texts.append('c1\ts\texon\t%d\t%d\t.\t+\t.\tgene_id "G%04d"; transcript_id "G%04d.t%d";' % (st, st + 9, g, g, t))
+    texts = [texts[(i * 1009) % len(texts)] for i in range(len(texts))]
+    path = dbutil.write_text(ctx.fresh_dir(), "big.gtf", "\n".join(texts) + "\n")
+    db = gffutils.create_db(path, ":memory:", verbose=False, disable_infer_genes=dis_g, disable_infer_transcripts=dis_t)
+    ctx.sample(lambda: dict(scale="400 genes x 3 transcripts x 2 exons", disable_infer_genes=dis_g, disable_infer_transcripts=dis_t))
+    ctx.nontrivial()
+    ctx.outcome(("scale", dis_g, dis_t))
+    sig = dict(scale=True, disable_genes=dis_g, disable_transcripts=dis_t)
+    tx = {f.id: (f.start, f.end) for f in db.features_of_type("transcript")}
+    gn = {f.id: (f.start, f.end) for f in db.features_of_type("gene")}
+    exp_tx = {} if dis_t else {"G%04d.t%d" % (g, t): (1 + 1000 * g + 100 * t, 1 + 1000 * g + 100 * t + 39) for g in range(400) for t in range(3)}
+    exp_gn = {} if dis_g else {"G%04d" % g: (1 + 1000 * g, 1 + 1000 * g + 239) for g in range(400)}
+    missing = sorted(set(exp_tx) - set(tx))
+    ctx.check(tx == exp_tx, "derived-transcripts-differ-at-scale", sig, n_got=len(tx), n_expected=len(exp_tx), missing=missing[:5],
+              wrong=[k for k in exp_tx if k in tx and tx[k] != exp_tx[k]][:5])
+    ctx.check(gn == exp_gn, "derived-genes-differ-at-scale", sig, n_got=len(gn), n_expected=len(exp_gn))
+    ctx.check(db.count_features_of_type("exon") == 2400, "exon-count-differs-at-scale", sig, got=db.count_features_of_type("exon"))
+
+
 def body(ch, ctx):
+    if ctx.shard[0] == "scale":
+        return body_scale(ch, ctx)
     si, e0, ci, strand1, explicit = ctx.shard
     q = ctx.tier == "quick"
     exon_opts = EXON_OPTS_Q if q else EXON_OPTS_T
@@ -82,7 +112,7 @@ def body(ch, ctx):
     tx = []          # (tid, gid, exons(list of abs intervals))
     first = True
     for gi, nt in enumerate(shape):
-        gid = "g%d" % (gi + 1)
+        gid = "g %d" % (gi + 1) if gi == 0 else "g%d" % (gi + 1)        # the first gene's id contains a blank
         off = 100 * gi
         seqid = "c%d" % (gi + 1)
         strand = strand1 if gi == 0 else ("-" if strand1 == "+" else "+")
@@ -182,7 +212,7 @@ def body(ch, ctx):
     kw = dict(disable_infer_genes=dis_g, disable_infer_transcripts=dis_t, verbose=False)
     if keys != "default":
         kw.update(gtf_transcript_key=tk, gtf_gene_key=gk, gtf_subfeature=sub, id_spec={"gene": gk, "transcript": tk})
-    path = dbutil.write_text(ctx.fresh_dir(), "in.gtf", "\n".join(texts) + "\n")
+    path = dbutil.write_text(ctx.fresh_dir(), ("in.gtf", "annot.gff", "x.gff3", "data.txt")[(ci + si) % 4], "\n".join(texts) + "\n")
     db = gffutils.create_db(path, ":memory:", **kw)
     got = {f.id: (f.featuretype, f.seqid, f.start, f.end, f.strand) for f in db.all_features()}
     if not ctx.check(db.dialect["fmt"] == "gtf", "not-imported-as-gtf", sig, file=texts):
